@@ -120,6 +120,7 @@ func c16Jobs(tier string) []*Job {
 						k = 2
 					}
 					sc := timedScen(fmt.Sprintf("C16-N%d-ratio%.1f-%s-tx%d", n, float64(ratio)/10, amevName(a), ii), n, "C16", withAMEV(a), withDyn(ratio), withPool(), withNewTx(ins...), withHeights(3), withK(k), withHorizon(3*5+4))
+					sc.Dev.NotifyLag = len(ins) > 0
 					jobs = append(jobs, job(sc, per))
 				}
 			}
@@ -138,7 +139,7 @@ func init() {
 			}
 			return ""
 		})
-	e1Check("C16", "E1 timed mode with MaxTimePerBlock configured: ratios max/min in {1,1.5,2,3,10} x N in {1,2,4,7} x a transaction appearing never / before min / at min / every 5 s of the extended wait / at max / twice, in every order relative to the deliveries and timers of that instant (<=k deviations), 3 heights, anti-MEV off/on; control group without the extension; oracle on virtual-time stamps of PrepareRequest broadcasts, SubscribeForTxs calls, absence of ChangeView/RecoveryRequest, no stuck terminal state",
+	e1Check("C16", "E1 timed mode with MaxTimePerBlock configured: ratios max/min in {1,1.5,2,3,10} x N in {1,2,4,7} x a transaction appearing never / before min / at min / every 5 s of the extended wait / at max / twice, in every order relative to the deliveries and timers of that instant, incl. one node's OnNewTransaction notification lagging behind the message traffic of that instant (<=k deviations), 3 heights, anti-MEV off/on; control group without the extension; oracle on virtual-time stamps of PrepareRequest broadcasts, SubscribeForTxs calls, absence of ChangeView/RecoveryRequest, no stuck terminal state",
 		c16Jobs, func(a *Aggregate) string {
 			if a.Done == 0 {
 				return "no execution reached the target height"
